@@ -26,7 +26,19 @@ RATIO = 16.0
 def get_universe(key):
     if key not in _U:
         cname, tgrid, Lt, Lx = key
-        U = universe.rect_universe(cname, tgrid, Lt, Lx)
+        if isinstance(Lx, str) and Lx.startswith('deep:'):
+            # directed deep meshes: k space bisections towards both ends of the parameter interval (elements of length 2^-k next
+            # to x = 0 and x = L, with the whole staircase of coarser neighbours); shipped time grid (0, 1)
+            from mc import meshmc
+            if tuple(tgrid) != (0., 1.):
+                raise common.HarnessError('deep universes use the shipped time grid')
+            dh = meshmc.deep_histories(cname, int(Lx.split(':')[1]))
+            U = {}
+            for i, name in enumerate(('seamR', 'seamL')):
+                m_ = meshmc.build(meshmc.CFGS[cname], dh[name])
+                U[(0, i)] = (m_, list(m_.leaf_elements))
+        else:
+            U = universe.rect_universe(cname, tgrid, Lt, Lx)
         g = curve(cname)
         els = universe.all_elements(U)
         SL = universe.make_SL(cname, False, tgrid)
@@ -126,7 +138,7 @@ def chunk(item):
                 ref = oracle.pointwise(t, e.time_interval, e.space_interval, piece, x, xhat=xh if e.space_interval[0] < xh < e.space_interval[1] else None)
                 den = max(abs(ref), 1e-9)
                 cl, tol = classify(g, xh, *e.space_interval)
-                recd = {'curve': key[0], 'tgrid': key[1], 'trial': [e.time_interval, e.space_interval], 't': t, 'x_hat': xh, 'class': cl, 'exact': ref}
+                recd = {'curve': key[0], 'tgrid': key[1], 'univ': [key[2], key[3]], 'trial': [e.time_interval, e.space_interval], 't': t, 'x_hat': xh, 'class': cl, 'exact': ref}
                 try:
                     val = float(SL.evaluate(e, t, xh, x))
                     err = abs(val - ref) / den
@@ -248,8 +260,10 @@ def integral_task(item):
     return out
 
 
-UNIV = {'quick': [(c, (0., 1.), 1, 1) for c in CURVES] + [('UnitSquare', (0., 0.25), 0, 2), ('Circle', (0., 0.3, 1.), 0, 1)],
-        'thorough': [(c, (0., 1.), 2, 2) for c in CURVES] + [(c, (0., 0.25), 1, 3) for c in CURVES] + [(c, (0., 0.3, 1.), 1, 2) for c in CURVES]}
+UNIV = {'quick': [(c, (0., 1.), 1, 1) for c in CURVES] + [('UnitSquare', (0., 0.25), 0, 2), ('Circle', (0., 0.3, 1.), 0, 1)]
+                 + [('ThinRect', (0., 2.0**-8), 0, 4), ('UnitSquare', (0., 1.), 0, 'deep:11')],  # custom thin rectangle, short end time: opposite sides are close in the plane and far along the boundary
+        'thorough': [(c, (0., 1.), 2, 2) for c in CURVES] + [(c, (0., 0.25), 1, 3) for c in CURVES] + [(c, (0., 0.3, 1.), 1, 2) for c in CURVES]
+                    + [(c, (0., 1.), 0, 'deep:14') for c in CURVES] + [('ThinRect', (0., 2.0**-8), 1, 4), ('ThinRect', (0., 1.), 1, 2), ('Stadium', (0., 1.), 1, 2), ('BigCircle', (0., 1.), 1, 2)]}
 INTEG = {'quick': [('UnitSquare', (0., 1.), 0, 1), ('Circle', (0., 1.), 0, 0)],
          'thorough': [(c, (0., 1.), 1, 1) for c in ('UnitSquare', 'Circle', 'LShape')]}
 
@@ -325,7 +339,8 @@ def replay(ctx, data):
     g = curve(data['curve'])
     orc = oracle.EntryOracle(g)
     if data.get('fn') in ('evaluate', 'evaluate_exact'):
-        key = (data['curve'], tuple(data['tgrid']), 2, 3)
+        uv = data.get('univ') or [2, 3]
+        key = (data['curve'], tuple(data['tgrid']), uv[0], uv[1]) if isinstance(uv[1], str) else (data['curve'], tuple(data['tgrid']), max(2, uv[0]), max(3, uv[1]))
         gg, U, els, orc, SL = get_universe(key)
         e = [x for x in els if x.time_interval == tuple(data['trial'][0]) and x.space_interval == tuple(data['trial'][1])][0]
         t, xh = data['t'], data['x_hat']
